@@ -407,19 +407,32 @@ fn read_bed(w: &W, data: &Rc<Vec<u8>>, io: IoCfg) -> (Vec<Item<bed::Record>>, bo
     let mut rd = bed::Reader::new(src);
     let mut items = vec![];
     let mut ended = false;
-    {
+    // API history: optionally abandon the first records() iterator after `restart_after` items and
+    // call records() again on the same reader; it must continue with the next record.
+    let restart_after = if w.chance(1, 4) { Some(w.draw(4) as usize) } else { None };
+    let mut restarted = false;
+    'outer: loop {
         let mut it = rd.records();
         loop {
+            if let (Some(k), false) = (restart_after, restarted) {
+                if items.len() >= k {
+                    restarted = true;
+                    w.probe("records_iterator_restarted");
+                    continue 'outer;
+                }
+            }
             match it.next() {
                 None => {
                     ended = true;
-                    break;
+                    // poking a finished iterator again must be harmless
+                    let _ = it.next();
+                    break 'outer;
                 }
                 Some(Ok(r)) => items.push(Item::Ok(r)),
                 Some(Err(e)) => items.push(Item::Err { eintr: csv_is_eintr(&e), text: e.to_string() }),
             }
             if items.len() > max_items {
-                break;
+                break 'outer;
             }
         }
     }
@@ -436,19 +449,32 @@ fn read_gff(w: &W, data: &Rc<Vec<u8>>, io: IoCfg, d: Dialect) -> (Vec<Item<gff::
     let mut rd = gff::Reader::new(src, d.ty());
     let mut items = vec![];
     let mut ended = false;
-    {
+    // API history: optionally abandon the first records() iterator after `restart_after` items and
+    // call records() again on the same reader; it must continue with the next record.
+    let restart_after = if w.chance(1, 4) { Some(w.draw(4) as usize) } else { None };
+    let mut restarted = false;
+    'outer: loop {
         let mut it = rd.records();
         loop {
+            if let (Some(k), false) = (restart_after, restarted) {
+                if items.len() >= k {
+                    restarted = true;
+                    w.probe("records_iterator_restarted");
+                    continue 'outer;
+                }
+            }
             match it.next() {
                 None => {
                     ended = true;
-                    break;
+                    // poking a finished iterator again must be harmless
+                    let _ = it.next();
+                    break 'outer;
                 }
                 Some(Ok(r)) => items.push(Item::Ok(r)),
                 Some(Err(e)) => items.push(Item::Err { eintr: csv_is_eintr(&e), text: e.to_string() }),
             }
             if items.len() > max_items {
-                break;
+                break 'outer;
             }
         }
     }
@@ -676,6 +702,10 @@ fn roundtrip(w: &W, fmt: Fmt) -> Verdict {
         }
         img = out;
     }
+    // NOTE: the final newline is never stripped here. A file without it is the written file
+    // truncated by one byte, and for truncations the property only asks for "an error rather than
+    // a panic" (an unterminated trailing comment line, for instance, comes back as one Err item
+    // from csv-core); that case belongs to the cut scenarios, not to the round trip.
     let data = Rc::new(img);
     if w.keep_trace {
         w.note("writer_io", wio.json());
@@ -733,7 +763,10 @@ fn probes_from_cuts(w: &W, data: &[u8], cuts: &[usize]) {
 // ---------------------------------------------------------------------------------------------
 // targeted damage
 
-const BAD_NUMBERS: [&str; 6] = ["abc", "", "-5", "1.5", "184467440737095516160", " 7"];
+// "0x10" is deliberately absent: the csv crate documents hexadecimal integers as valid numbers.
+const BAD_NUMBERS: [&str; 14] = [
+    "abc", "", "-5", "1.5", "184467440737095516160", " 7", "-0", "0x", "18446744073709551616", "1e3", "1_000", "7 ", "٣", "1,5",
+];
 const BAD_PHASES: [&str; 8] = ["3", "7", "255", "256", "-1", "x", "", "0.0"];
 
 fn damage(w: &W, fmt: Fmt) -> Verdict {
@@ -815,7 +848,27 @@ fn damage(w: &W, fmt: Fmt) -> Verdict {
     lines[j] = nl;
     w.fired("targeted_damage");
     w.sig_mix(0x400 + kind);
-    let img: Vec<u8> = lines.concat();
+    // comment lines around the records (items still map one-to-one to record lines)
+    let with_comments = w.chance(1, 4);
+    let mut img: Vec<u8> = Vec::new();
+    for (i, l) in lines.iter().enumerate() {
+        if with_comments && w.chance(1, 2) {
+            img.push(b'#');
+            img.extend_from_slice(string_from(w, &COMMENT_CHARS, 0, 6).as_bytes());
+            img.push(b'\n');
+            if i == j {
+                w.probe("damaged_line_follows_comment");
+            }
+        }
+        img.extend_from_slice(l);
+    }
+    if j + 1 == n && w.chance(1, 3) {
+        // only when the damaged line is the last one: it must be an error with or without its
+        // terminator, and no other line loses anything
+        img.pop();
+        w.fired("final_newline_stripped");
+        w.probe("damaged_last_line_without_newline");
+    }
     let data = Rc::new(img);
     let rio = if w.chance(1, 2) { IoCfg::draw(w, false) } else { IoCfg::CLEAN };
     if w.keep_trace {
@@ -887,7 +940,18 @@ fn garbage(w: &W, fmt: Fmt) -> Verdict {
     let mut img = written.clone();
     let mut cut: Option<usize> = None;
     if w.chance(1, 2) {
-        let c = w.draw(img.len() as u64 + 1) as usize;
+        let c = match w.draw(3) {
+            0 => w.draw(img.len() as u64 + 1) as usize,
+            1 => img.len().saturating_sub(1 + w.draw(2) as usize),
+            _ => {
+                let ends: Vec<usize> = (0..img.len()).filter(|&i| img[i] == b'\n').collect();
+                if ends.is_empty() {
+                    0
+                } else {
+                    (*w.pick(&ends) + w.draw(3) as usize).min(img.len())
+                }
+            }
+        };
         img.truncate(c);
         cut = Some(c);
         w.fired("cut");
@@ -1025,7 +1089,7 @@ pub fn property() -> Property {
         ],
         expected_probes: &[
             "multi_valued_attribute", "key_order_differs_from_insertion", "quoted_csv_field", "csv_field_or_line_split_across_reads",
-            "damage_bad_number", "damage_bad_phase", "damage_phase_in_u8_range", "damage_column_missing", "damage_column_added", "eintr_surfaced_by_reader", "many_records_regime",
+            "damage_bad_number", "damage_bad_phase", "damage_phase_in_u8_range", "damage_column_missing", "damage_column_added", "eintr_surfaced_by_reader", "many_records_regime", "records_iterator_restarted", "damaged_line_follows_comment", "damaged_last_line_without_newline",
         ],
         quick_runs: 300_000,
         thorough_runs: 20_000_000,
